@@ -13,13 +13,8 @@ Definition w_rename_hist : list hstep :=
   [(OAddNode (S "n1") (Some (S "a")) (S "VM"), [], []); (OAddNode (S "n2") (Some (S "b")) (S "VM"), [], [])].
 Definition w_rename_op : op := ORename (RNode (S "b")) (S "n1").
 Lemma rename_refuted :
-  let g := run_hist false empty_graph w_rename_hist in
-  WF g /\ ~ WF (fst (step false g w_rename_op [] [])).
-Proof. split; [apply wf_b_reflect; vm_compute; reflexivity | apply not_WF_by_b; vm_compute; reflexivity]. Qed.
-
-(* add_facility with two interfaces of the same name (network_service.py:386 checks a list it never extends) *)
-Definition w_facility_op : op := OAddFacility (S "f1") (Some (S "f")) (Some [S "p"; S "p"]).
-Lemma add_facility_refuted : WF empty_graph /\ ~ WF (fst (step false empty_graph w_facility_op [] [])).
+  let g := run_hist false flags_off empty_graph w_rename_hist in
+  WF g /\ ~ WF (fst (step false flags_off g w_rename_op [] [])).
 Proof. split; [apply wf_b_reflect; vm_compute; reflexivity | apply not_WF_by_b; vm_compute; reflexivity]. Qed.
 
 (* connect an interface to a service, then remove the peering link by name (topology.py:361) *)
@@ -29,22 +24,26 @@ Definition w_link_hist : list hstep :=
    (OAddNS (S "s1") (Some (S "b")) (S "L2Bridge") [S "i"], [S "g3x0"; S "g3x1"], [])].
 Definition w_link_op : op := ORemoveLink (S "n1-c1-p1-link").
 Lemma remove_link_refuted :
-  let g := run_hist false empty_graph w_link_hist in
-  WF g /\ ~ WF (fst (step false g w_link_op [] [])).
+  let g := run_hist false flags_off empty_graph w_link_hist in
+  WF g /\ ~ WF (fst (step false flags_off g w_link_op [] [])).
 Proof. split; [apply wf_b_reflect; vm_compute; reflexivity | apply not_WF_by_b; vm_compute; reflexivity]. Qed.
-
-(* a service of type L2Multisite: the enum has it, the published vocabulary does not *)
-Definition w_vocab_op : op := OAddNS (S "s1") None sL2Multisite [].
-Lemma service_vocabulary_refuted :
-  In sL2Multisite enum_service_types /\ WF empty_graph /\ ~ WF (fst (step false empty_graph w_vocab_op [S "g1x0"] [])).
-Proof.
-  split; [vm_compute; tauto|]. split; [apply wf_b_reflect; vm_compute; reflexivity | apply not_WF_by_b; vm_compute; reflexivity].
-Qed.
 
 (* the outcomes of the witnesses are normal returns: the violation is not an artefact of an error path *)
 Lemma witnesses_return_normally :
-  snd (step false (run_hist false empty_graph w_rename_hist) w_rename_op [] []) = None /\
-  snd (step false empty_graph w_facility_op [] []) = None /\
-  snd (step false (run_hist false empty_graph w_link_hist) w_link_op [] []) = None /\
-  snd (step false empty_graph w_vocab_op [S "g1x0"] []) = None.
+  snd (step false flags_off (run_hist false flags_off empty_graph w_rename_hist) w_rename_op [] []) = None /\
+  snd (step false flags_off (run_hist false flags_off empty_graph w_link_hist) w_link_op [] []) = None.
 Proof. vm_compute. repeat split. Qed.
+
+(* with the proposed repairs (flags_on) the same calls are refused and leave the model untouched *)
+Lemma witnesses_refused_when_repaired :
+  step false flags_on (run_hist false flags_on empty_graph w_rename_hist) w_rename_op [] []
+    = (run_hist false flags_on empty_graph w_rename_hist, Some ETopology) /\
+  step false flags_on (run_hist false flags_on empty_graph w_link_hist) w_link_op [] []
+    = (run_hist false flags_on empty_graph w_link_hist, Some ETopology).
+Proof. vm_compute. split; reflexivity. Qed.
+
+(* add_facility with a repeated interface name is refused and rolled back (fixes 18a115a, 2982a89) *)
+Definition w_facility_op : op := OAddFacility (S "f1") (Some (S "f")) (Some [S "p"; S "p"]).
+Lemma add_facility_duplicate_refused :
+  forall fl, step false fl empty_graph w_facility_op [] [] = (empty_graph, Some ETopology).
+Proof. intro fl. vm_compute. reflexivity. Qed.
